@@ -290,6 +290,16 @@ def check_graph(ctx, ds, cls, shape, dt, ftype, fam):
             obs["rep.seq"] = canon_idx(f4.idxs_seq, n)
             f4.repair_loops()                                    # idempotent on a valid network
             obs["rep2.ds"] = canon_idx(f4.idxs_ds, n)
+            # the same repair on an object whose count / rank / order were already evaluated
+            f5 = mk()
+            _ = (f5.nnodes, f5.rank, f5.idxs_seq, f5.isvalid)
+            f5.repair_loops()
+            got5 = (int(f5.nnodes), ints(f5.rank), sorted(canon_idx(f5.idxs_seq, n)), canon_idx(f5.idxs_pit, n), bool(f5.isvalid))
+            want5 = (obs["rep.nnodes"], obs["rep.rank"], sorted(obs["rep.seq"]), obs["rep.pits"], obs["rep.isvalid"])
+            ctx.evaluations += 1
+            if got5 != want5:
+                ctx.fail(desc, "spec", "repair_loops on an object whose node count / rank / order had been queried before "
+                         "reports stale values (node count, rank, sequence, pits, isvalid)", got=list(got5), fresh=list(want5))
         except Exception as e:
             ctx.evaluations += 1
             ctx.fail(desc, "spec", f"{cls} method raised {exc_class(e)}: {e}", observed=obs)
